@@ -9,12 +9,16 @@
 
   Cell level, as in C13: if reading the exported value under the same (format, raw type)
   gives back the cell, exporting again gives the same value (`fixed_point_of_read_back`),
-  instantiated for the integer and bool pairings proved in C13.  The statement without the
+  instantiated for every lossless pairing proved in C13 / Proofs/Pairings and for every
+  non-lossless self-readable pairing (`table_coverage`: boolean(T), hidden(T), date(...),
+  datetime(string|[]byte), timestamp(json.Number|floats), numeric(string|[]byte)) in
+  Proofs/SelfReadable.  The statement without the
   hypothesis "the raw value is well-typed for the descriptor" is FALSE of the code
   (`swallowed_cast_counterexample`, known finding): the exporter builds the output row with
   NewValue, which swallows a failed cast.
 -/
 import Props.C13
+import Proofs.SelfReadable
 
 namespace Jl.C05
 open Jl Jl.Value Cast
@@ -59,5 +63,83 @@ theorem swallowed_cast_counterexample (ext : Ext) :
   · simp [newValue, hcast]
   · simp [exportVal, hstr, exportFail]
   · simp [importCell, importByFormat, importFrom, hcast, importFail]
+
+/-! ### The self-readable pairings that are not lossless (`Proofs/SelfReadable.lean`)
+
+`SelfReadable.FixedPoint env f ty e e'` : reading `e'` (what the JSON reader delivers for the emitted
+`e`) under (f, ty) succeeds and writing the cell again gives `e`. -/
+
+/-- Every pairing of the self-readable table is either lossless (C13 and the `*_fixed_point`
+    corollaries of `Proofs/Pairings.lean`) or one of the families below. -/
+theorem table_coverage (f : Format) (ty : Ty)
+    (h1 : Tables.selfReadable f ty = true) (h2 : Tables.lossless f ty = false) :
+    (f = .boolean ∧ ty ≠ .none ∧ ty ≠ .bool) ∨ f = .hidden ∨
+    (f = .date ∧ (ty = .none ∨ ty = .str ∨ ty = .bytes ∨ ty = .num)) ∨
+    (f = .datetime ∧ (ty = .str ∨ ty = .bytes)) ∨
+    (f = .timestamp ∧ (ty = .num ∨ ty = .f64 ∨ ty = .f32)) ∨
+    (f = .numeric ∧ (ty = .str ∨ ty = .bytes)) :=
+  SelfReadable.nonlossless_selfReadable_cases f ty h1 h2
+
+/-- boolean(T), every T: what a boolean column emits for a well-typed raw value (true / false / null)
+    is read back under the same descriptor and emitted again unchanged. -/
+theorem boolean_row_fixed_point (ext : Ext) (raw : Dyn) (ty : Ty) (e : Dyn)
+    (hwt : SelfReadable.WellTyped .boolean ty raw) (hh : SelfReadable.BooleanHyp ext ty)
+    (h : exportVal ⟨genTables, ext⟩ (.cell raw .boolean ty) = .ok e) :
+    (e = .nil ∨ ∃ b, e = .bool b) ∧ SelfReadable.FixedPoint ⟨genTables, ext⟩ .boolean ty e e :=
+  SelfReadable.boolean_fixed_point ext raw ty e hwt hh h
+
+/-- date(none | string | []byte | json.Number): for EVERY raw value (well-typed or not) and every zone
+    function, the emitted date is accepted by the date parser and is a fixed point. -/
+theorem date_row_fixed_point (ext : Ext) (raw : Dyn) (ty : Ty) (e : Dyn)
+    (hty : ty = .none ∨ ty = .str ∨ ty = .bytes ∨ ty = .num)
+    (h : exportVal ⟨genTables, ext⟩ (.cell raw .date ty) = .ok e) :
+    (e = .nil ∧ SelfReadable.FixedPoint ⟨genTables, ext⟩ .date ty .nil .nil) ∨
+    (∃ d, e = .str d ∧ Time.parseDateOk d = true ∧ JsonQuote.sanitize d = d ∧
+      SelfReadable.FixedPoint ⟨genTables, ext⟩ .date ty (.str d) (.str (JsonQuote.sanitize d))) :=
+  SelfReadable.date_fixed_point ext raw ty e hty h
+
+/-- datetime(string | []byte): the emitted RFC 3339 text is a fixed point, provided zone offsets are 0 or
+    at least a minute and below 25 h, and the raw text does not carry the offset ±25:00 … -/
+theorem datetime_text_fixed_point (ext : Ext) (raw : Dyn) (s : Bytes) (ty : Ty) (e : Dyn)
+    (hwt : (ty = .str ∧ raw = .str s) ∨ (ty = .bytes ∧ raw = .bytes s))
+    (hzone : ∀ v off, ext.zoneOffset v = some off → SelfReadable.OffsetOK off)
+    (hs : ∀ t, Time.parseRFC3339 s = some t → t.off.natAbs ≠ 90000)
+    (h : exportVal ⟨genTables, ext⟩ (.cell raw .datetime ty) = .ok e) :
+    ∃ t, e = .str (Time.formatRFC3339 t) ∧ SelfReadable.TimeFrom ext s t ∧
+      JsonQuote.sanitize (Time.formatRFC3339 t) = Time.formatRFC3339 t ∧
+      SelfReadable.FixedPoint ⟨genTables, ext⟩ .datetime ty e (.str (JsonQuote.sanitize (Time.formatRFC3339 t))) :=
+  SelfReadable.datetime_fixed_point ext raw s ty e hwt hzone hs h
+
+/-- … which is exactly the known finding `offset-24-60`, now with a kernel-checked witness: the text
+    `2000-01-01T00:00:00+24:60` is accepted (a leniency of time.Parse), written `…+25:00`, and that
+    text is rejected on the next pass — for every zone function. -/
+theorem offset_24_60_counterexample (ext : Ext) :
+    exportVal ⟨genTables, ext⟩ (.cell (.str SelfReadable.text2460) .datetime .str) = .ok (.str SelfReadable.text2500) ∧
+    JsonQuote.sanitize SelfReadable.text2500 = SelfReadable.text2500 ∧
+    importCell ⟨genTables, ext⟩ .datetime .str (.str SelfReadable.text2500) =
+      .ok (.cell (.str SelfReadable.text2500) .datetime .str, none) ∧
+    exportVal ⟨genTables, ext⟩ (.cell (.str SelfReadable.text2500) .datetime .str) = .err .unsupportedExport :=
+  SelfReadable.datetime_str_offset_25h_counterexample ext
+
+/-- hidden(T): the line is the line of the row without its hidden cells, whatever they hold. -/
+theorem hidden_cells_do_not_reach_the_line (env : Env) (k : Bytes) (raw raw' : Dyn) (ty ty' : Ty) (ms : Members) :
+    RowPrint.marshalRow env (.cons k (.cell raw .hidden ty) ms) =
+      RowPrint.marshalRow env (.cons k (.cell raw' .hidden ty') ms) :=
+  SelfReadable.hidden_line_indep env k raw raw' ty ty' ms
+
+/-- numeric(string | []byte) and timestamp(json.Number): the literal / integer emitted is a fixed point
+    (timestamp(float64|float32): `SelfReadable.timestamp_f64_exact`, `timestamp_f32_exact`, given
+    strconv's answer for the integer text). -/
+theorem numeric_text_fixed_point (ext : Ext) (s : Bytes) :
+    (∃ e, exportVal ⟨genTables, ext⟩ (.cell (.str s) .numeric .str) = .ok e ∧ e = .num s ∧
+      SelfReadable.FixedPoint ⟨genTables, ext⟩ .numeric .str e e) ∧
+    (∃ e, exportVal ⟨genTables, ext⟩ (.cell (.bytes s) .numeric .bytes) = .ok e ∧ e = .num s ∧
+      SelfReadable.FixedPoint ⟨genTables, ext⟩ .numeric .bytes e e) :=
+  SelfReadable.numeric_text_fixed_point ext s
+
+theorem timestamp_number_fixed_point (ext : Ext) (l : Bytes) (e : Dyn)
+    (h : exportVal ⟨genTables, ext⟩ (.cell (.num l) .timestamp .num) = .ok e) :
+    ∃ n, e = .int .i64 n ∧ SelfReadable.FixedPoint ⟨genTables, ext⟩ .timestamp .num e (.num (IntText.formatInt n)) :=
+  SelfReadable.timestamp_num_fixed_point ext l e h
 
 end Jl.C05
